@@ -238,7 +238,21 @@ fn file_name<R: Reader<Offset = usize>>(dwarf: &Dwarf<R>, unit: &Unit<R>, idx: u
                 .directory(header)
                 .and_then(|d| dwarf.attr_string(unit, d).ok())
                 .and_then(|s| s.to_slice().ok().map(|c| hex(&c)));
-            format!("file({},{})", dir.unwrap_or_else(|| "-".into()), name.unwrap_or_else(|| "?".into()))
+            // the whole file entry is the meaning: directory, name, timestamp, size, MD5, embedded source
+            let src = f
+                .source()
+                .and_then(|v| dwarf.attr_string(unit, v).ok())
+                .and_then(|s| s.to_slice().ok().map(|c| hex(&c)));
+            let md5 = if f.md5().iter().all(|b| *b == 0) { "-".to_string() } else { hex(&f.md5()[..]) };
+            format!(
+                "file({},{},t{},s{},m{},src{})",
+                dir.unwrap_or_else(|| "-".into()),
+                name.unwrap_or_else(|| "?".into()),
+                f.timestamp(),
+                f.size(),
+                md5,
+                src.unwrap_or_else(|| "-".into())
+            )
         }
     }
 }
